@@ -52,7 +52,7 @@ def variants(op, sizes):
     elif op == "abduce_with":
         out = [("abduce_with", f, st, [nx, ny], None) for f in FAM4 for st in ("spx", "ref")]
     elif op == "abduce":
-        out = [("abduce", f, "spx", [nx, ny], None) for f in FAM4]
+        out = [("abduce", f, st, [nx, ny], None) for f in FAM4 for st in ("spx", "ref", "own")]
     elif op == "prod2":
         out = [("prod2", f, st, [nx, nz], [nx, nz, lab]) for f, lab in (("arr", 0), ("marrd", 1), ("marrdn", 1))
                for st in ("own", "ref")]
